@@ -35,7 +35,7 @@ rm -f "$W.demo.log" "$W.suite.log"
 echo "SEEDED $name: demo-without-change=$([ $base -eq 0 ] && echo pass || echo FAIL) suite-with-change=$([ $suite -eq 0 ] && echo pass || echo FAIL) demo-with-change=$([ $with -ne 0 ] && echo fails-as-intended || echo PASSES)"
 [ $base -eq 0 ] && [ $suite -eq 0 ] && [ $with -ne 0 ] || { echo "SEEDED $name: NOT CONFIRMED"; exit 3; }
 for id in "$@"; do
-	out="$(VERIF_REPO="$W" timeout 1800 /verif/run.sh check "$id" "$TIER" 2>&1)"; rc=$?
+	out="$(VERIF_REPO="$W" timeout 1800 "${VERIF_RUN:-/verif/run.sh}" check "$id" "$TIER" 2>&1)"; rc=$?
 	n=$(printf '%s\n' "$out" | grep -c '^VIOLATION')
 	first=$(printf '%s\n' "$out" | grep -A1 '^VIOLATION' | sed -n 2p | cut -c1-260)
 	echo "SEEDED $name check=$id tier=$TIER exit=$rc violations=$n :: $first"
